@@ -12,8 +12,8 @@ import (
 )
 
 func init() {
-	propertyRules["C17"] = []ruleFn{ruleClientReset, ruleClientTip, ruleClientConfig, ruleRefBlock}
-	propertyExplain["C17"] = "Client typestate on internal/simulation and internal/consensus.New: the node's event loop re-initialises the library (DBFT.Reset) after a handled event under a condition implied by 'a block was processed', from the loop and not from inside the ProcessBlock callback; the ledger callbacks return fields that the ProcessBlock callback assigns from b.Index()/b.Hash(); OnTimeout receives the timer's Height()/View(); the timer channel is re-read in every iteration; every option checkConfig requires is supplied and the payload-verification options share one verifier; the reference block constructor receives the context fields in their roles. Goroutine schedules, block interval and agreement between the simulated nodes are run-time behaviour of a concurrent program: not applicable."
+	propertyRules["C17"] = []ruleFn{ruleClientReset, ruleClientTip, ruleClientConfig, ruleRefBlock, ruleViewResetCover, ruleTimerDrain, ruleRearm, ruleInitArms}
+	propertyExplain["C17"] = "Client typestate on internal/simulation and internal/consensus.New: the node's event loop re-initialises the library (DBFT.Reset) after a handled event under a condition implied by 'a block was processed', from the loop and not from inside the ProcessBlock callback; the ledger callbacks return fields that the ProcessBlock callback assigns from b.Index()/b.Hash(); OnTimeout receives the timer's Height()/View(); the timer channel is re-read in every iteration; every option checkConfig requires is supplied and the payload-verification options share one verifier; the reference block constructor receives the context fields in their roles; plus the library/timer preconditions the example's liveness relies on (per-view state dropped on every view change, the immediate-expiry channel is drained before a send, every timeout and initialisation re-arms the timer). Goroutine schedules, block interval and agreement between the simulated nodes are run-time behaviour of a concurrent program: not applicable."
 }
 
 const simPath = modPath + "/internal/simulation"
@@ -184,7 +184,50 @@ func ruleClientReset(c *RC) *RuleResult {
 					})
 				}
 			}
+			// the re-initialisation must follow every kind of handled event: if it sits inside one select/switch arm,
+			// every arm that feeds the library must have it
+			partial := ""
+			for _, enc := range enclosingClauses(fn, call) {
+				ast.Inspect(fn.Decl.Body, func(n ast.Node) bool {
+					var body []ast.Stmt
+					switch x := n.(type) {
+					case *ast.CommClause:
+						body = x.Body
+					case *ast.CaseClause:
+						body = x.Body
+					default:
+						return true
+					}
+					if n == enc {
+						return true
+					}
+					feeds, resets := false, false
+					for _, st := range body {
+						ast.Inspect(st, func(m ast.Node) bool {
+							if ce, ok := m.(*ast.CallExpr); ok {
+								if f, ok := typeutil.Callee(fn.Pkg.TypesInfo, ce).(*types.Func); ok {
+									switch f.Name() {
+									case "OnReceive", "OnTimeout", "OnTransaction", "OnNewTransaction":
+										feeds = true
+									case "Reset":
+										if sig := f.Type().(*types.Signature); sig.Recv() != nil && namedName(sig.Recv().Type()) == "DBFT" {
+											resets = true
+										}
+									}
+								}
+							}
+							return true
+						})
+					}
+					if feeds && !resets {
+						partial = c.Prog.Pos(n)
+					}
+					return true
+				})
+			}
 			switch {
+			case partial != "":
+				r.fail(fn.Name+"/reset-partial", c.Prog.Pos(call), "DBFT.Reset follows only some kinds of events: the event arm at "+partial+" feeds the library but is not followed by the re-initialisation (a block accepted there leaves the node idle forever)")
 			case !inFor:
 				r.fail(fn.Name+"/reset-outside-loop", c.Prog.Pos(call), "DBFT.Reset is called once, outside the event loop")
 			case !condOK:
@@ -386,4 +429,27 @@ func ruleRefBlock(c *RC) *RuleResult {
 	check("newBlockFromContext", "NewBlock", map[string]string{"timestamp": "Timestamp", "index": "BlockIndex", "prevHash": "PrevHash", "nonce": "Nonce", "txHashes": "TransactionHashes"})
 	check("defaultNewConsensusPayload", "NewConsensusPayload", map[string]string{"height": "BlockIndex", "validatorIndex": "MyIndex", "viewNumber": "ViewNumber"})
 	return r
+}
+
+// enclosingClauses: select/switch clauses whose body encloses the node.
+func enclosingClauses(fn *FuncInfo, target ast.Node) []ast.Node {
+	var out []ast.Node
+	var stack []ast.Node
+	ast.Inspect(fn.Decl.Body, func(n ast.Node) bool {
+		if n == nil {
+			stack = stack[:len(stack)-1]
+			return true
+		}
+		if n == target {
+			for _, anc := range stack {
+				switch anc.(type) {
+				case *ast.CommClause, *ast.CaseClause:
+					out = append(out, anc)
+				}
+			}
+		}
+		stack = append(stack, n)
+		return true
+	})
+	return out
 }
